@@ -94,7 +94,9 @@ func TestSim(t *testing.T) {
 	}
 	// one discarded warm-up run: first-use initialisation in the process takes
 	// long enough to be time-sliced
-	if job.Mode != "info" {
+	// (not in the race build: the race runtime reports each pair of stacks only
+	// once per process, a warm-up run would swallow the first report)
+	if job.Mode != "info" && !RaceBuild {
 		runGuarded(t, p, p.Gen(7, -1, job.Tier), NewSeedTape(7))
 	}
 	start := time.Now()
@@ -191,7 +193,7 @@ func TestSim(t *testing.T) {
 			if len(o.Violations) > 0 || o.Infra != "" || i < job.Samples || job.KeepTrace {
 				emit(rec, i < job.Samples || job.KeepTrace)
 			}
-			if RaceBuild && raceLogGrew() {
+			if RaceBuild && raceReported(o) {
 				// the race runtime reports each pair of stacks once per process:
 				// retire this worker so later runs are not silently clean
 				return
@@ -315,4 +317,13 @@ func minimise(t *testing.T, p Prop, scn json.RawMessage, tape []uint32, class st
 		}
 	}
 	return scn, tape, best, tried
+}
+
+func raceReported(o *Outcome) bool {
+	for _, v := range o.Violations {
+		if len(v.Class) > 10 && v.Class[len(v.Class)-10:] == "/data-race" {
+			return true
+		}
+	}
+	return false
 }
